@@ -53,9 +53,68 @@ fn make_xm(root: &Path) -> Option<std::path::PathBuf> {
     None
 }
 
+/// kind 9: ( 9 rounds threads gz ) — `threads` rollers with pairwise DISJOINT archive names that share one
+/// not-yet-existing archive directory tree do their first roll at the same moment (barrier); per round
+/// a fresh directory.  Result ( failed_rolls misplaced ): rolls that returned Err, and rollers whose
+/// file did not end up (whole) at its base archive name.  Both must be 0: rollers do not share names.
+fn run_concurrent(c: &[Val]) -> Val {
+    let rounds = c[1].u();
+    let nthreads = c[2].u();
+    let gz = c[3].b();
+    let ext = if gz { "gz" } else { "log" };
+    let mut failed = 0u128;
+    let mut misplaced = 0u128;
+    for round in 0..rounds {
+        let tmp = tempfile::tempdir().expect("tempdir");
+        let root = tmp.path().to_path_buf();
+        let shared = root.join("arch").join(format!("y{}", round)).join("deep");
+        let barrier = std::sync::Barrier::new(nthreads);
+        let results: Vec<(bool, bool)> = std::thread::scope(|sc| {
+            let hs: Vec<_> = (0..nthreads)
+                .map(|t| {
+                    let (root, shared, barrier) = (&root, &shared, &barrier);
+                    sc.spawn(move || {
+                        let file = root.join(format!("f{}.log", t));
+                        let body = format!("thread {} round {}\n", t, round).into_bytes();
+                        std::fs::write(&file, &body).expect("write log");
+                        let pattern = format!("{}/r{}.{{}}.{}", shared.display(), t, ext);
+                        let roller = FixedWindowRoller::builder().build(&pattern, 2).expect("roller");
+                        barrier.wait();
+                        let ok = roller.roll(&file).is_ok();
+                        let dst = shared.join(format!("r{}.0.{}", t, ext));
+                        let placed = match std::fs::read(&dst) {
+                            Ok(b) if !gz => b == body,
+                            Ok(b) => {
+                                use std::io::Read;
+                                let mut out = Vec::new();
+                                flate2::read::GzDecoder::new(&b[..]).read_to_end(&mut out).is_ok() && out == body
+                            }
+                            Err(_) => false,
+                        };
+                        (ok, placed && !file.exists())
+                    })
+                })
+                .collect();
+            hs.into_iter().map(|h| h.join().unwrap_or((false, false))).collect()
+        });
+        for (ok, placed) in results {
+            if !ok {
+                failed += 1;
+            }
+            if !placed {
+                misplaced += 1;
+            }
+        }
+    }
+    Val::L(vec![Val::N(failed), Val::N(misplaced)])
+}
+
 fn run(case: &Val) -> Val {
     let c = case.l();
     let kind = c[0].n();
+    if kind == 9 {
+        return run_concurrent(c);
+    }
     let base = c[1].n();
     let count = c[2].n();
     let pattern = c[4].str();
